@@ -131,6 +131,14 @@ RoundTo(a, k, typ) ==
                  IN IF m = <<>> THEN [ovf |-> FALSE, c |-> FloatC(typ, Zero, 0)]
                     ELSE [ovf |-> MBitLen(m) - 1 + q > EMax(k), c |-> FloatC(typ, Mk(a.i.neg, m), q)]
 
+\* rounding to float32 directly and rounding to float64 first give different results (a tag:
+\* the specification rounds ONCE; an implementation that narrows a float64 is wrong exactly here)
+DoubleRoundingDiffers(a) ==
+    LET once == RoundTo(a, "float32", "float32")
+        via  == RoundTo(a, "float64", "float64")
+        twice == IF via.ovf THEN via ELSE RoundTo(via.c, "float32", "float32")
+    IN once.ovf # twice.ovf \/ (~once.ovf /\ (once.c.i # twice.c.i \/ once.c.x # twice.c.x))
+
 \* exactly representable (no rounding, no overflow)
 ExactIn(a, k) == LET r == RoundTo(a, k, a.typ) IN ~r.ovf /\ r.c.i = a.i /\ r.c.x = a.x
 
@@ -157,7 +165,9 @@ ConvNumTo0(c, k, site, opnd) ==
                      THEN AddTags(Ok(IntC("int", k, v)), {"float-inexact-to-int"}) ELSE Ok(IntC("int", k, v)))
                 ELSE Reject(Why("overflow", site, k, opnd, SignOf(v) \o MagClass(v, k)))
     ELSE LET r == RoundTo(AsFloat(c), k, k)
-         IN IF r.ovf THEN Reject(Why("overflow", site, k, opnd, "f")) ELSE Ok(r.c)
+         IN IF r.ovf THEN Reject(Why("overflow", site, k, opnd, "f"))
+            ELSE IF k = "float32" /\ DoubleRoundingDiffers(AsFloat(c)) THEN AddTags(Ok(r.c), {"f32-double-rounding"})
+            ELSE Ok(r.c)
 ConvNumTo(c, k, site, opnd) == WithCls(ConvNumTo0(c, k, site, opnd), c)
 
 \* the untyped bounds
@@ -496,7 +506,9 @@ DeclTags(toks, k, iota) ==
                     \/ (\E j \in 1..Len(ops) : Untyped(ops[j].c) /\ IsNum(ops[j].c) /\ ~(o \in ShiftOps /\ j = 2)
                                                  /\ ~Representable(ops[j].c, k))
                     \/ (o = "/" /\ k \in FloatKinds /\ \A j \in 1..Len(ops) : IsIntCls(ops[j].c))
-                    \/ (k \in FloatKinds /\ LET r == Eval(toks, iota) IN r.st = "ok" /\ IsNum(r.c) /\ ~ExactIn(AsFloat(r.c), k))
+                    \/ (k \in FloatKinds /\ LET r == Eval(toks, iota)
+                                           IN r.st = "ok" /\ IsNum(r.c)
+                                              /\ (~ExactIn(AsFloat(r.c), k) \/ (IsIntCls(r.c) /\ ~RepInt(r.c.i, "int64"))))
                  THEN {"decl-type-on-operands"} ELSE {}
 
 -------------------------------------------------------------------------------
